@@ -252,6 +252,58 @@ fn main() {
             }
             println!("{{\"runs\":{},\"compared\":{},\"drift\":{}}}", run, compared, drifts);
         }
+        "replay-ord" => {
+            // behaviours of Ordered.tla (K-bit counters) on the real 64-bit collections
+            let inp = std::fs::File::open(&args[2]).expect("open pred");
+            let kind = arg(&args, "--kind").unwrap_or("fo").to_string();
+            let mut out = std::io::BufWriter::new(std::fs::File::create(&args[3]).expect("create trace"));
+            let mut scn_out = arg(&args, "--scn-out").map(|p| std::io::BufWriter::new(std::fs::File::create(p).unwrap()));
+            let mut run = 0u64;
+            for (ln, line) in std::io::BufReader::new(inp).lines().enumerate() {
+                let line = line.unwrap();
+                if line.trim().is_empty() {
+                    continue;
+                }
+                let ops: Vec<serde_json::Value> = serde_json::from_str(&line).expect("ops");
+                let mut sc = Scenario { kind: kind.clone(), ctor: "with_capacity".into(), tail: "drain".into(), ..Default::default() };
+                sc.id = format!("ord:{}:{}", kind, ln + 1);
+                sc.cap = 4;
+                for o in &ops {
+                    let c = o["c"].as_u64().unwrap_or(0) as u32;
+                    match o["op"].as_str().unwrap_or("") {
+                        "start" => {
+                            let k = o["k"].as_u64().unwrap_or(4);
+                            let v = o["v"].as_u64().unwrap_or(0);
+                            let w = 1u64 << k;
+                            // landmark + offset: values near 0 (both sides) and near the sign bit
+                            let start = if v < w / 4 {
+                                v
+                            } else if v >= 3 * w / 4 {
+                                0u64.wrapping_sub(w - v)
+                            } else {
+                                (1u64 << 63).wrapping_add(v).wrapping_sub(w / 2)
+                            };
+                            sc.start = Some(start);
+                            sc.cap = (k as usize) + 1;
+                        }
+                        "pb" => sc.ops.push(Op::Push { c, front: false, r#try: false }),
+                        "pf" => sc.ops.push(Op::Push { c, front: true, r#try: false }),
+                        "complete" => sc.ops.push(Op::Complete { c }),
+                        "poll" => sc.ops.push(Op::Poll { w: 1 }),
+                        _ => {}
+                    }
+                }
+                run += 1;
+                run_scenario(&sc, run, hooklog);
+                if let Some(s) = scn_out.as_mut() {
+                    writeln!(s, "{}", serde_json::to_string(&sc).unwrap()).unwrap();
+                }
+                for l in world::take_log() {
+                    writeln!(out, "{}", l).unwrap();
+                }
+            }
+            println!("{{\"runs\":{}}}", run);
+        }
         "run" => {
             let inp = std::fs::File::open(&args[2]).expect("open scenarios");
             let mut out = std::io::BufWriter::new(std::fs::File::create(&args[3]).expect("create trace"));
